@@ -73,7 +73,7 @@ def matches(entry: dict, f: Failure) -> bool:
         return False
     if entry.get("property") != f.property:
         return False
-    if entry.get("rule") != f.rule:
+    if not _match_value(entry.get("rule"), f.rule):
         return False
     for k, pat in (entry.get("match") or {}).items():
         if k not in f.details or not _match_value(pat, f.details[k]):
@@ -227,6 +227,8 @@ def main(argv=None):
 
         seams.install()
         fails = mod.replay(rec)
+        for f in fails:
+            f.property = prop
         same = [f for f in fails if f.rule == rec["rule"]]
         print(json.dumps({"reproduced": bool(same), "rules": sorted({f.rule for f in fails})}))
         for f in same[:1]:
@@ -246,6 +248,8 @@ def main(argv=None):
         print("HARNESS-ERROR", e)
         return 2
     wall = time.time() - t0
+    for f in res.failures:
+        f.property = prop
     known_entries, hits, unknown = classify(prop, res.failures)
     unknown = group_failures(unknown)
     rc = 0
